@@ -1,3 +1,4 @@
+import Ivg.Gen.Tie.Tolerant
 import Ivg.Arith
 import Ivg.Gen.GoPrelude
 /-!
@@ -11,15 +12,24 @@ condition on both sides.
 namespace Ivg.Gen.Tie
 open Ivg Ivg.Num
 
+tolerant
 theorem f32_lt_iff (a b : F32) : (a < b) ↔ (F32.lt a b = true) := Iff.rfl
+tolerant
 theorem f32_le_iff (a b : F32) : (a ≤ b) ↔ (F32.le a b = true) := Iff.rfl
+tolerant
 theorem f64_lt_iff (a b : F64) : (a < b) ↔ (F64.lt a b = true) := Iff.rfl
+tolerant
 theorem f64_le_iff (a b : F64) : (a ≤ b) ↔ (F64.le a b = true) := Iff.rfl
 
+tolerant
 theorem f32_ofInt_one : (Arith.ofInt 1 : F32) = ⟨0x3f800000⟩ := by decide
+tolerant
 theorem f32_ofInt_zero : (Arith.ofInt 0 : F32) = ⟨0⟩ := by decide
+tolerant
 theorem f64_ofInt_one : (Arith.ofInt 1 : F64) = ⟨0x3ff0000000000000⟩ := by decide
+tolerant
 theorem f64_ofInt_zero : (Arith.ofInt 0 : F64) = ⟨0⟩ := by decide
+tolerant
 theorem f64_ofInt_neg_one : (Arith.ofInt (-1) : F64) = ⟨0xbff0000000000000⟩ := by decide
 
 end Ivg.Gen.Tie
